@@ -566,3 +566,45 @@ def replay(ctx, payload):
     bad = any(p[0] == "violation" for p in probs) or (payload.get("kind") == "no-failing-input-found" and probs)
     print("REPRODUCED" if bad else "NOT-REPRODUCED")
     return 1 if bad else 0
+
+
+# ----------------------------------------------------------------------------- C15 adapter (added by the integrator)
+_C15_FAM = {"int": "int", "bigint": "bigint", "str": "plain", "tuple": "tuple", "frozenset": "frozenset"}
+
+
+def c15_cases(rng, k):
+    out = []
+    for i in range(k):
+        n = rng.choice((3, 4, 5))
+        g = C.rand_dag_order_graph(rng, n, [("D>",), ("B",), ("D>", "B")], density=0.6)
+        if not g["B"]:
+            g["B"].append([0, 1])
+        out.append({"g": g})
+    return out
+
+
+def c15_eval(case, fam, order_seed):
+    """the returned graph is a witness among several (new node names are free): it is validated by the
+    Lean validator `c10valid` (proved: C10.isConv_of_valid / sepPreserved_of_valid), not compared"""
+    import random
+    rng = random.Random(order_seed)
+    g = C.shuffled_graph(rng, case["g"])
+    n = g["n"]
+    c = {"g": g, "labs": label_family(rng, _C15_FAM[fam], n, len(g["B"])), "attrs": [1] * n, "cls": "mixed",
+         "src": "c15", "queries": []}
+    got = impl(c)
+    if "err" in got:
+        return "err:" + got["err"].split(":")[0]
+    if not got.get("isdigraph"):
+        return "not-a-DiGraph"
+    ls = lines_for(c, got)
+    drv = C.Driver()
+    try:
+        ans = drv.ask(ls[1])
+    finally:
+        drv.close()
+    return "found:valid" if ans == "T" else "found:INVALID:" + ans
+
+
+def c15_expected(cases):
+    return ["found:valid"] * len(cases)
